@@ -176,7 +176,7 @@ def gen_tree(rng, u, max_nodes, max_depth, origins):
 
 def gen_cases(rng, tier):
     cases = []
-    n_uni = 14 if tier == "quick" else 500
+    n_uni = 24 if tier == "quick" else 500
     per_u = 3 if tier == "quick" else 8
     n_xp = 12
     for _ in range(n_uni):
